@@ -8,16 +8,36 @@ use slac::{StaticEnvironment, Value as V};
 use std::cell::RefCell;
 use std::rc::Rc;
 
+// how often a native test function was actually ENTERED (an observable effect of a host function: a result cache between the
+// environment and the function, or inside the interpreter, changes this number and nothing else)
+thread_local! { pub static NATIVE_ENTERED: std::cell::Cell<u64> = const { std::cell::Cell::new(0) }; }
+fn entered() { NATIVE_ENTERED.with(|c| c.set(c.get() + 1)); }
+pub fn native_entered() -> u64 { NATIVE_ENTERED.with(|c| c.get()) }
+
 // test behaviours, mirrored one by one in the Lean driver (Driver/Codec.lean `behaviour`)
-fn b_first(p: &[V]) -> NativeResult { p.first().cloned().ok_or(NativeError::WrongParameterCount(1)) }
-fn b_cnt(p: &[V]) -> NativeResult { Ok(V::Number(p.len() as f64)) }
-fn b_fail(_p: &[V]) -> NativeResult { Err(NativeError::CustomError("boom".into())) }
-fn b_arr(p: &[V]) -> NativeResult { Ok(V::Array(p.to_vec())) }
-fn b_k0(_p: &[V]) -> NativeResult { Ok(V::Boolean(true)) }
-fn b_k1(_p: &[V]) -> NativeResult { Ok(V::Number(0.0)) }
-fn b_k2(_p: &[V]) -> NativeResult { Ok(V::String("k".into())) }
-fn b_k3(_p: &[V]) -> NativeResult { Ok(V::Array(vec![])) }
-fn b_last(p: &[V]) -> NativeResult { p.last().cloned().ok_or(NativeError::WrongParameterType) }
+fn b_first(p: &[V]) -> NativeResult { entered(); p.first().cloned().ok_or(NativeError::WrongParameterCount(1)) }
+fn b_cnt(p: &[V]) -> NativeResult { entered(); Ok(V::Number(p.len() as f64)) }
+fn b_fail(_p: &[V]) -> NativeResult { entered(); Err(NativeError::CustomError("boom".into())) }
+fn b_arr(p: &[V]) -> NativeResult { entered(); Ok(V::Array(p.to_vec())) }
+fn b_k0(_p: &[V]) -> NativeResult { entered(); Ok(V::Boolean(true)) }
+fn b_k1(_p: &[V]) -> NativeResult { entered(); Ok(V::Number(0.0)) }
+fn b_k2(_p: &[V]) -> NativeResult { entered(); Ok(V::String("k".into())) }
+fn b_k3(_p: &[V]) -> NativeResult { entered(); Ok(V::Array(vec![])) }
+fn b_last(p: &[V]) -> NativeResult { entered(); p.last().cloned().ok_or(NativeError::WrongParameterType) }
+fn b_ifthen(p: &[V]) -> NativeResult { entered(); slac::stdlib::common::if_then(p) }
+
+/// a value `==` to `v` under the coercing equality but not identical to it (None when there is none worth trying)
+fn decoy(v: &V) -> Option<V> {
+    Some(match v {
+        V::Number(x) if x.is_nan() => return None,
+        V::Number(x) if *x == 0.0 => V::Number(-*x),
+        V::Number(x) if *x == 1.0 => V::Boolean(true),
+        V::Number(x) => V::String(format!("{}", x)),
+        V::Boolean(b) => V::Number(if *b { 1.0 } else { 0.0 }),
+        V::String(s) => match s.parse::<f64>() { Ok(x) if !x.is_nan() => V::Number(x), _ => return None },
+        V::Array(a) => { let d: Vec<V> = a.iter().map(|x| decoy(x).unwrap_or_else(|| x.clone())).collect(); V::Array(d) }
+    })
+}
 
 pub const BEHAVIOURS: [&str; 10] = ["first", "cnt", "fail", "arr", "k0", "k1", "k2", "k3", "last", "ifthen"];
 
@@ -25,7 +45,7 @@ pub fn behaviour(name: &str) -> Option<fn(&[V]) -> NativeResult> {
     Some(match name {
         "first" => b_first, "cnt" => b_cnt, "fail" => b_fail, "arr" => b_arr,
         "k0" => b_k0, "k1" => b_k1, "k2" => b_k2, "k3" => b_k3, "last" => b_last,
-        "ifthen" => slac::stdlib::common::if_then,
+        "ifthen" => b_ifthen,
         other => {
             let b = other.strip_prefix("b:")?;
             slac::stdlib::builtins().into_iter().find(|f| f.name == b)?.func
@@ -70,7 +90,9 @@ impl EnvDesc {
     }
     pub fn build(&self) -> Option<StaticEnvironment> {
         let mut env = StaticEnvironment::default();
-        for (n, v) in &self.vars { env.add_variable(n, v.clone()); }
+        // every binding is an OVERWRITE of a loosely equal value (`1` over `true`, `0` over `-0`, `5` over `'5'`): the environment must
+        // end up holding exactly the value added last
+        for (n, v) in &self.vars { if let Some(d) = decoy(v) { env.add_variable(n, d); } env.add_variable(n, v.clone()); }
         for f in &self.fns {
             let arity = match f.kind { 'P' => Arity::Polyadic { required: f.req, optional: f.opt }, 'V' => Arity::Variadic, _ => Arity::None };
             env.add_function(Function { name: f.name.clone(), func: behaviour(&f.beh)?, arity, params: String::new(), pure: f.pure });
@@ -79,9 +101,17 @@ impl EnvDesc {
     }
 }
 
-pub struct RecEnv { pub inner: StaticEnvironment, pub log: RefCell<Vec<String>> }
+pub struct RecEnv { pub inner: StaticEnvironment, pub log: RefCell<Vec<String>>, pub entered0: u64 }
 impl RecEnv {
-    pub fn new(inner: StaticEnvironment) -> Self { RecEnv { inner, log: RefCell::new(vec![]) } }
+    pub fn new(inner: StaticEnvironment) -> Self { RecEnv { inner, log: RefCell::new(vec![]), entered0: native_entered() } }
+    /// " ; NATIVE k of m" when the number of native test functions entered since `new` differs from the number of logged `call()`
+    /// events that name a registered test function (every such event must reach its function exactly once); "" otherwise
+    pub fn native_law(&self, d: &EnvDesc) -> String {
+        let want = self.log.borrow().iter().filter(|ev| { let mut t = ev.split(' ');
+            matches!((t.next(), t.next().and_then(unhex)), (Some("cl"), Some(name)) if d.fns.iter().any(|f| f.name.to_lowercase() == name.to_lowercase() && !f.beh.starts_with("b:"))) }).count() as u64;
+        let got = native_entered() - self.entered0;
+        if got == want { String::new() } else { format!(" ; NATIVE entered {} expected {}", got, want) }
+    }
     pub fn trace(&self) -> String { let l = self.log.borrow(); if l.is_empty() { "-".into() } else { l.join(" , ") } }
     /// C06's observable: every event is a call of a function registered pure for that argument count
     pub fn all_pure_calls(&self, d: &EnvDesc) -> bool {
